@@ -534,6 +534,60 @@ pub fn run_client(c: &ClientCase) -> Result<(), Fail> {
     Ok(())
 }
 
+/// Like run_client, with the scripted replies written by a thread (they do not fit a socket buffer).
+pub fn run_client_big(c: &ClientCase) -> Result<(), Fail> {
+    use std::io::Write;
+    let mut fake = Fake::new();
+    let mut bytes = vec![];
+    for i in 0..c.conts.len() {
+        bytes.extend(serde_json::to_vec(&cont_reply(c, i)).unwrap());
+        bytes.push(0);
+    }
+    bytes.extend(serde_json::to_vec(&c.fin).unwrap());
+    bytes.push(0);
+    let mut w = fake.server.try_clone().map_err(|e| Fail::new("HARNESS/clone", e.to_string()))?;
+    let writer = std::thread::spawn(move || {
+        let _ = w.set_nonblocking(false);
+        let _ = w.write_all(&bytes);
+    });
+    let mut call = vcall(&fake.conn, "org.x.Stream", json!({"token": "s"}));
+    let it = call.more().map_err(|e| Fail::new("client-more/send-failed", format!("more() failed: {:?}", e.kind())))?;
+    let mut n = 0usize;
+    let mut bad = None;
+    for (i, r) in it.by_ref().enumerate() {
+        match r {
+            Ok(v) if v["i"] == json!(i) => n += 1,
+            other => {
+                bad = Some(format!("item {} is {:?}", i, other.map(|v| v["i"].clone()).map_err(|e| e.kind().clone())));
+                break;
+            }
+        }
+        if n > c.conts.len() + 1 {
+            break;
+        }
+    }
+    // unblock the writer whatever happened
+    if bad.is_some() || n != c.conts.len() + 1 {
+        let _ = fake.server.shutdown(std::net::Shutdown::Both);
+    }
+    let _ = writer.join();
+    if let Some(b) = bad {
+        return Err(Fail::new("client-more/wrong-item", format!("stream of {} replies: {}", c.conts.len() + 1, b)));
+    }
+    if n != c.conts.len() + 1 {
+        return Err(Fail::new("client-more/ended-early", format!("service sent {} continues replies and a final one; the iterator yielded {} items", c.conts.len(), n)));
+    }
+    if !fake.slots_present() {
+        return Err(Fail::new("client-more/slots-not-returned", "after the final reply of a long stream the connection's reader/writer are not back"));
+    }
+    for (j, f) in c.follow.iter().enumerate() {
+        fake.push_replies(std::slice::from_ref(f));
+        let r = vcall(&fake.conn, "org.x.Next", json!({"j": j})).call();
+        check_outcome("client-more/follow-up", &expected_outcome(f), &r)?;
+    }
+    Ok(())
+}
+
 fn client_half(ctx: &mut Ctx) {
     // every k in 0..=32 with a plain success final, exhaustively; then random
     for k in 0..=32usize {
@@ -547,6 +601,21 @@ fn client_half(ctx: &mut Ctx) {
         ctx.class("client:k-sweep");
         if let Err(f) = pt::guard(|| run_client(&c)) {
             ctx.violation(&f.key, &f.what, "c05-client", client_json(&c));
+        }
+    }
+    // long streams: more than 1 MiB in total, made of many small replies / of a dozen large ones
+    for (k, size) in [(20_000usize, 40usize), (12, 100_000)] {
+        let blob = "x".repeat(size);
+        let c = ClientCase {
+            conts: (0..k).map(|i| json!({"i": i, "blob": blob})).collect(),
+            cont_errors: vec![],
+            fin: json!({"parameters": {"i": k}}),
+            follow: vec![json!({"parameters": {"after": k}})],
+        };
+        ctx.case(Some(hash64(&("long-stream", k, size))));
+        ctx.class("client:long-stream(> 1 MiB in total)");
+        if let Err(f) = pt::guard(|| run_client_big(&c)) {
+            ctx.violation(&f.key, &f.what, "c05-client", json!({"long_stream_replies": k, "blob_bytes": size}));
         }
     }
     let strat = (
